@@ -2,6 +2,9 @@
 use crate::Ctx;
 
 pub mod c01;
+pub mod c04;
+pub mod c05;
+pub mod c06;
 pub mod c11;
 pub mod hist;
 pub mod pool;
@@ -11,6 +14,10 @@ pub fn run(ctx: &Ctx) {
     match ctx.scenario.as_str() {
         "selftest" => util::selftest(ctx),
         "c01" => c01::run(ctx),
+        "c04" => c04::run(ctx),
+        "c05" => c05::run(ctx),
+        "c06" => c06::run_c06(ctx),
+        "c07" => c06::run_c07(ctx),
         "c11" => c11::run(ctx),
         "hist" => hist::run(ctx),
         other => {
